@@ -50,7 +50,10 @@ for C in $CHECKS; do
   RES="$RES $C:exit=$RC:violations=$NV"
 done
 git -C /repo worktree remove --force "$WT"
-rm -rf /verif/.work/e2-alt-* /verif/.work/alt-* 2>/dev/null
+# remove only this worktree's alternate-repo caches (other runs may be using theirs)
+H=$(printf %s "$WT" | sha256sum | cut -c1-8)
+T=$(echo "$WT" | cksum | cut -d' ' -f1)
+rm -rf "/verif/.work/e2-alt-$H" "/verif/.work/alt-$T" /verif/bin/*.alt-* 2>/dev/null
 python3 - "$SRC/meta.json" "$OUT/meta.json" "$BUILD" "$DEMO_WITH" "$DEMO_WITHOUT" "$TESTS" "$RES" <<'EOF'
 import json,sys
 src,dst,build,dw,dwo,tests,res=sys.argv[1:8]
